@@ -513,6 +513,86 @@ end:
   loop_end();
 }
 
+/* ---- 13b. a signal whose delivery is hit by a fault on the write() inside uv__signal_handler
+   (EAGAIN: the signal pipe is full and the signal is dropped; EINTR: retried), then the handle is
+   closed.  The scenario does not wait for the callback: whether it arrived is reported as
+   info.signal_delivered; what must hold is that the close completes and the loop can be closed. */
+static int sgc_n, sgc_closed;
+static void sgc_cb(uv_signal_t* h, int signum) { (void) h; (void) signum; sgc_n++; }
+static void sgc_close_cb(uv_handle_t* h) { (void) h; sgc_closed = 1; pend--; }
+static void sc_signal_close(void) {
+  int i;
+  sgc_n = sgc_closed = 0;
+  if (loop_begin()) return;
+  API("signal_init", uv_signal_init(&L, &sg1));
+  if (API("signal_start", uv_signal_start(&sg1, sgc_cb, SIGUSR1)) == 0) {
+    fi_api = "raise";
+    kill(getpid(), SIGUSR1);          /* delivered synchronously: the handler runs here */
+    fi_api = "-";
+    for (i = 0; i < 3; i++) run_nowait(1);
+    ev("info.signal_delivered=%d", sgc_n);
+    fi_api = "raise";
+    kill(getpid(), SIGUSR1);
+    fi_api = "-";
+    run_nowait(2);
+    ev("info.signal_delivered2=%d", sgc_n);
+    /* uv_close while a delivery may still be in the pipe */
+    fi_api = "raise";
+    kill(getpid(), SIGUSR1);
+    fi_api = "-";
+    api_begin("close_signal"); uv_close((uv_handle_t*) &sg1, sgc_close_cb); api_end("close_signal", 0, 0);
+    pend++;
+    run_pending();
+    ev("close_cb=%d", sgc_closed);
+  }
+  loop_end();
+}
+
+/* ---- 6c. a server at its descriptor limit: connections are shed (uv__emfile_trick), every
+   client is either accepted or disconnected, and the loop does not spin ------------------------ */
+static int sh_resolved[NCONN];
+static void sh_resolve(int i) { if (!sh_resolved[i]) { sh_resolved[i] = 1; pend--; } }
+static void sh_read_cb(uv_stream_t* s, ssize_t n, const uv_buf_t* b) {
+  (void) b;
+  if (n < 0) { cbevx("shed_client", n); uv_read_stop(s); sh_resolve((int) ((uv_tcp_t*) s - mc_cli)); }
+}
+static void sh_connect_cb(uv_connect_t* r, int st) {
+  cbevx("connect", st);
+  pend--;
+  if (st == 0) uv_read_start(r->handle, alloc_cb, sh_read_cb);
+  else sh_resolve((int) ((uv_tcp_t*) r->handle - mc_cli));
+}
+static void sh_conn_cb(uv_stream_t* srv, int st) {
+  cbevx("connection", st);
+  if (st == 0 && mc_nacc < NCONN) {
+    uv_tcp_init(&L, &mc_acc[mc_nacc]);
+    if (APIX("accept", uv_accept(srv, (uv_stream_t*) &mc_acc[mc_nacc])) == 0) {
+      /* tell the client: it resolves when it sees our EOF */
+      uv_close((uv_handle_t*) &mc_acc[mc_nacc], NULL);
+      mc_nacc++;
+    } else uv_close((uv_handle_t*) &mc_acc[mc_nacc], NULL);
+  }
+}
+static void sc_tcp_shed(void) {
+  struct sockaddr_in a; int len = sizeof a, i;
+  memset(&S, 0, sizeof S); mc_nacc = 0; memset(sh_resolved, 0, sizeof sh_resolved);
+  if (loop_begin()) return;
+  uv_tcp_init(&L, &S.srv.tcp);
+  uv_ip4_addr("127.0.0.1", 0, &a);
+  if (API("tcp_bind", uv_tcp_bind(&S.srv.tcp, (struct sockaddr*) &a, 0)) == 0 &&
+      API("listen", uv_listen(&S.srv.s, 16, sh_conn_cb)) == 0 &&
+      API("getsockname", uv_tcp_getsockname(&S.srv.tcp, (struct sockaddr*) &a, &len)) == 0) {
+    for (i = 0; i < NCONN; i++) {
+      uv_tcp_init(&L, &mc_cli[i]);
+      if (APIX("connect", uv_tcp_connect(&mc_req[i], &mc_cli[i], (struct sockaddr*) &a, sh_connect_cb)) == 0) pend += 2;
+    }
+    run_pending();
+    for (i = 0, len = 0; i < NCONN; i++) len += sh_resolved[i];
+    ev("resolved=%d", len);
+  }
+  loop_end();
+}
+
 /* ---- 14. getaddrinfo / getnameinfo -------------------------------------------------------------------- */
 static uv_getaddrinfo_t gai; static uv_getnameinfo_t gni;
 static void gai_cb(uv_getaddrinfo_t* r, int st, struct addrinfo* res) { (void) r; cbev("getaddrinfo", st); uv_freeaddrinfo(res); pend--; }
@@ -926,7 +1006,7 @@ static void su_close(void) {
   {"loop", sc_loop}, {"basic", sc_basic}, {"tcp", sc_tcp}, {"tcp_big", sc_tcp_big}, {"pipe", sc_pipe}, \
   {"pipe_big", sc_pipe_big}, {"tcp_refused", sc_tcp_refused}, {"tcp_many", sc_tcp_many}, {"connect_fail", sc_connect_fail}, {"udp", sc_udp}, \
   {"fs_sync", sc_fs_sync}, {"fs_async", sc_fs_async}, {"fs_event", sc_fs_event}, {"fs_poll", sc_fs_poll}, \
-  {"spawn", sc_spawn}, {"spawn_fail", sc_spawn_fail}, {"spawn_many", sc_spawn_many}, {"signal", sc_signal}, \
+  {"spawn", sc_spawn}, {"spawn_fail", sc_spawn_fail}, {"spawn_many", sc_spawn_many}, {"signal", sc_signal}, {"signal_close", sc_signal_close}, {"tcp_shed", sc_tcp_shed}, \
   {"dns", sc_dns}, {"os", sc_os}, {"work", sc_work}, {"pairs", sc_pairs}, {"ipc", sc_ipc}, {"sysinfo", sc_sysinfo}, \
   {"u_write2", su_write2}, {"u_udp_send", su_udp_send}, {"u_fs_poll_start", su_fs_poll_start}, \
   {"u_os_environ", su_os_environ}, {"u_fs_event_start", su_fs_event_start}, {"u_getaddrinfo", su_getaddrinfo}, \
